@@ -74,7 +74,10 @@ class SimCheck:
 
     def show_replay(self, cfg, trace, n):
         sim = self.make_sim(cfg, trace)
-        sim.run()
+        res = sim.run()
+        print("    stop:", res["stop_reason"], "t=%.2f" % res["sim_seconds"], "boundaries:", res["boundaries"],
+              "handles:", res["handles"], "notes:", res["notes"], "phase:", sim.phase)
+        print("    trace:", trace)
         for ev in sim.hist[:n]:
             print("   ", repr(ev)[:260])
         for l in sim.lib_logs[:12]:
